@@ -826,6 +826,9 @@ void disasm_range_68000(
          memory->read8(start + n + 1));
     }
 
+    // An undecodable opcode has no length: step over it instead of going backwards.
+    if (count < 1) { count = 2; }
+
     start = start + count;
   }
 }
